@@ -665,7 +665,7 @@ def judge_trace(spec, out_lines):
             elif n > 1:
                 problems.append(("initialiser-run-more-than-once", "%s x%d" % (t, n)))
                 count_bad = True
-    exp_by_key = {line_key(l): l for l in main_lines}
+    value_problems = []
     for l in main_lines:
         key = line_key(l)
         got = pos.get(key, [])
@@ -683,7 +683,7 @@ def judge_trace(spec, out_lines):
                         extra = " (that is the same-named declaration of %s, expected the one of %s)" % (",".join(hit), info["owner"])
                 except ValueError:
                     pass
-            problems.append(("wrong-value-for-name", "expected %r got %r%s" % (l, out_lines[got[0]], extra)))
+            value_problems.append(("wrong-value-for-name", "expected %r got %r%s" % (l, out_lines[got[0]], extra)))
     if not count_bad:
         first = {k: min(pos[t][0] for t in mm["ids"]) for k, mm in mods.items() if k != "main" and mm["reach"] and mm["ids"]}
         last = {k: max(pos[t][0] for t in mm["ids"]) for k, mm in mods.items() if k in first}
@@ -723,6 +723,7 @@ def judge_trace(spec, out_lines):
         lp = [p for p in mpos if p is not None]
         if lp != sorted(lp):
             problems.append(("main-module-statements-out-of-order", ""))
+    problems += value_problems
     if not problems and out_lines != spec["expected"]:
         problems.append(("model-order", "trace differs from the source-order post-order walk of DESIGN.md §8"))
     return problems
